@@ -26,7 +26,8 @@ def rt_events(quick):
     evs = []
     for kind in ('gentime', 'utctime'):
         years = [1, 999, 1000, 1969, 1999, 2000, 2049, 2068, 9999] if kind == 'gentime' else [1969, 1999, 2000, 2049, 2068]
-        uss = [0, 1000, 5000, 50000, 120000, 999000] if kind == 'gentime' else [0]
+        # every millisecond digit pattern over {0, 1, 9} (27) plus a few round ones
+        uss = sorted({(a * 100 + b * 10 + c) * 1000 for a in (0, 1, 9) for b in (0, 1, 9) for c in (0, 1, 9)} | {5000, 50000, 120000}) if kind == 'gentime' else [0]
         days = lambda y: ((1, 1), (2, 29 if calendar.isleap(y) else 28), (12, 31))
         times = ((0, 0, 0), (23, 59, 59), (12, 30, 15))
         offsets = OFFSETS
